@@ -18,6 +18,7 @@ def check(rep):
     ER.rule_call_forwards(ctx, rid="C15.CALL-FORWARDS")
     # "a salt of any characters": the characters of the text reach the lexer as they were written
     ER.rule_text_unmodified(ctx, rid="C15.TEXT-UNMODIFIED")
+    ER.rule_digit_cap_restored(ctx)
     rep.assume("NOT decided: str(int) beyond CPython's 4300-digit conversion limit; lone surrogates (not in the statement)")
     return ("The codec on the hash path encodes every str; each splitter value enters the key through str() only with no type "
             "dispatch, filter or other operation that can raise on the listed types; an empty key is still hashed (the random "
